@@ -355,6 +355,26 @@ func (fr *Frame) callWithSpec(callee *ssa.Function, spec *FuncSpec, args []Val, 
 		t := env.eval(r.E).asBool()
 		fx.oblige("requires", fmt.Sprintf("%s/call/%s/requires/%s#", fr.path, short, clauseName(r, i)), st, t, pos, r.Src)
 	}
+	// the caller's own clauses about this callee (at_call ... prove)
+	atExtra := func(res []Val) map[string]CV {
+		extra := map[string]CV{}
+		for i, a := range args {
+			extra[fmt.Sprintf("arg%d", i)] = cvOf(a)
+		}
+		for i, r := range res {
+			extra[fmt.Sprintf("result%d", i)] = cvOf(r)
+		}
+		return extra
+	}
+	if root := fx.rootSpec; root != nil && fr.isRoot {
+		for i, ac := range root.AtCalls {
+			if ac.Assume || !strings.HasSuffix(key, ac.Callee) {
+				continue
+			}
+			t := fr.evalClause(ac.Clause, pre, nil, atExtra(nil))
+			fx.oblige("requires", fmt.Sprintf("%s/at_call/%s/%s#", fr.path, short, clauseName(ac.Clause, i)), st, t, pos, ac.Clause.Src)
+		}
+	}
 	inModel := T("true")
 	for i, r := range spec.Models {
 		t := env.eval(r.E).asBool()
@@ -465,6 +485,16 @@ func (fr *Frame) callWithSpec(callee *ssa.Function, spec *FuncSpec, args []Val, 
 		rv := post.eval(&ECall{Fn: spec.ResultIs, Args: cargs})
 		fx.assume(st.guard, post.equalView(cvOf(resVals[0]), rv))
 		fx.noteAssumption(key + " is deterministic and has no effects: its result is denoted by the spec function " + spec.ResultIs)
+	}
+	if root := fx.rootSpec; root != nil && fr.isRoot {
+		for _, ac := range root.AtCalls {
+			if !ac.Assume || !strings.HasSuffix(key, ac.Callee) {
+				continue
+			}
+			ac := ac
+			fx.assume(st.guard, fx.hyp(func() T { return fr.evalClause(ac.Clause, st, nil, atExtra(resVals)) }))
+			fx.noteAssumption("ASSUMED about every " + short + " call made by " + funcKey(fr.fn) + " (resource invariant, not derived from the callee): " + ac.Clause.Label + ": " + ac.Clause.Src)
+		}
 	}
 	if spec.MayPanic {
 		fr.panicPoint(pre, pos, key)
